@@ -222,7 +222,6 @@ Section Unfold.
     - cbn [ser_source] in E. rewrite Hx in E. injection E as <-. open_source. reflexivity.
     - cbn [ser_source] in E. rewrite Hx in E. injection E as <-. open_source. reflexivity.
     - cbn [ser_source] in E. rewrite Hx in E. injection E as <-. open_source. reflexivity.
-    - exfalso. apply (Hl l). reflexivity.
   Qed.
   Lemma deser_set l reg0 v fuel reg :
     ser_source s reg0 (SSet l) = Some v ->
@@ -231,7 +230,8 @@ Section Unfold.
   Proof.
     intros E. cbn [ser_source] in E. rewrite Hx in E.
     destruct (omap (ser_source s reg0) l) as [vs|] eqn:El; [|discriminate]. injection E as <-.
-    exists vs. split; [reflexivity|]. open_source. reflexivity.
+    exists vs. split; [reflexivity|]. open_source.
+    destruct (mapM_st (deser_source fuel) vs reg) as [[ys reg1]|]; reflexivity.
   Qed.
   (* without index-based references every source serializes *)
   Lemma ser_source_total reg0 x : exists v, ser_source s reg0 x = Some v.
@@ -318,17 +318,17 @@ Section Reload.
   Proof.
     induction x as [|u t|u r|q|l IH] using source_ind'; intros reg0 v fuel reg Hc Hq E Hf;
       (destruct fuel as [|fuel]; [simpl in Hf; lia|]).
-    - injection E as <-. exists SNo. auto.
-    - rewrite (deser_plain s Hx Hs _ reg0 v fuel reg ltac:(discriminate) ltac:(discriminate) E).
+    - cbn [ser_source] in E. injection E as <-. exists SNo. auto.
+    - rewrite (deser_plain s Hx Hs (SText u t) reg0 v fuel reg ltac:(discriminate) ltac:(discriminate) E).
       simpl in Hc. destruct (index_of (SText u t) p) as [j|] eqn:Ej; [|congruence].
       rewrite <- (index_of_eqv p reg _ _ Hq (strip_eqb (SText u t))) in Ej.
       destruct (reg_tail_found _ _ _ Ej) as [y [D Q]]. exists y. split; [exact D|]. exact Q.
-    - rewrite (deser_plain s Hx Hs _ reg0 v fuel reg ltac:(discriminate) ltac:(discriminate) E).
+    - rewrite (deser_plain s Hx Hs (SMem u r) reg0 v fuel reg ltac:(discriminate) ltac:(discriminate) E).
       simpl in Hc. destruct (index_of (SMem u r) p) as [j|] eqn:Ej; [|congruence].
       rewrite <- (index_of_eqv p reg _ _ Hq (strip_eqb (SMem u r))) in Ej.
       destruct (reg_tail_found _ _ _ Ej) as [y [D Q]]. exists y. split; [exact D|].
       eapply source_eqb_trans; [exact Q|apply strip_eqb].
-    - rewrite (deser_plain s Hx Hs _ reg0 v fuel reg ltac:(discriminate) ltac:(discriminate) E).
+    - rewrite (deser_plain s Hx Hs (SFile q) reg0 v fuel reg ltac:(discriminate) ltac:(discriminate) E).
       simpl in Hc. destruct (index_of (SFile q) p) as [j|] eqn:Ej; [|congruence].
       rewrite <- (index_of_eqv p reg _ _ Hq (strip_eqb (SFile q))) in Ej.
       destruct (reg_tail_found _ _ _ Ej) as [y [D Q]]. exists y. split; [exact D|]. exact Q.
@@ -401,9 +401,149 @@ Section Reload.
     assert (E : forall r0 l, exists ds, omap (ser_source slots0 r0) l = Some ds).
     { intros r0 l. induction l as [|x r [ds IHr]]; simpl; eauto.
       destruct (ser_source_total slots0 eq_refl r0 x) as [v ->]. rewrite IHr. eauto. }
-    destruct (E reg reg) as [ds Ed]. clear E. rename Ed into E.
-    destruct E as [ds E]. exists ds.
+    destruct (E reg reg) as [ds Ed]. clear E. rename Ed into E. exists ds.
     destruct (load_from reg [] [] ds fuel Hv (Forall2_nil _) E Hf) as [reg' [D Q]].
     exists reg'. auto.
   Qed.
 End Reload.
+
+(* index-based serialization round-trips to an equal source once the separately serialized sources are loaded *)
+Theorem source_index_reload s' reg fuel : get_sidx s' = true -> reg_valid reg ->
+  (forall y, In y reg -> source_depth y <= fuel) ->
+  exists ds reg', all_as_dict reg = Some ds /\ load_sources fuel ds [] = Ok reg' /\ reg_eqv reg reg' /\
+    forall x v k, ser_source s' reg x = Some v ->
+      exists y', deser_source (S k) v reg' = Ok (y', reg') /\ source_eqb y' x = true.
+Proof.
+  intros Hx Hv Hf. destruct (reload_registry reg fuel Hv Hf) as [ds [reg' [A [B C]]]].
+  exists ds, reg'. repeat split; auto. intros x v k E.
+  assert (Hsno : x = SNo \/ x <> SNo) by (destruct x; auto; right; discriminate).
+  destruct Hsno as [->|Hn].
+  - injection E as <-. exists SNo. auto.
+  - assert (Ei : exists i, index_of x reg = Some i /\ v = JMap [kv "idx" (JInt (Z.of_nat i))]).
+    { destruct x; try congruence; simpl in E; rewrite Hx in E; destruct (index_of _ reg) as [j|]; try discriminate;
+        injection E as <-; eauto. }
+    destruct Ei as [i [Ei ->]].
+    apply (source_index_roundtrip s' x reg reg' i k Hx Hn E). apply reg_eqv_agree. exact C.
+Qed.
+
+(* ---------- every registry the constructors can produce is valid ---------- *)
+Lemma index_of_app_some x p k j : index_of x p = Some j -> index_of x (p ++ k) = Some j.
+Proof.
+  revert j. induction p as [|y p IH]; simpl; [discriminate|]. intros j.
+  destruct (source_eqb y x); auto. destruct (index_of x p) as [i|]; [|discriminate].
+  intros [= <-]. rewrite (IH i eq_refl). reflexivity.
+Qed.
+Lemma index_of_app_ne x p k : index_of x p <> None -> index_of x (p ++ k) <> None.
+Proof. destruct (index_of x p) as [j|] eqn:E; [|congruence]. rewrite (index_of_app_some _ _ k _ E). discriminate. Qed.
+Lemma closed_app p k x : closed p x -> closed (p ++ k) x.
+Proof.
+  induction x as [|u t|u r|q|l IH] using source_ind'; try (simpl; auto using index_of_app_ne; fail).
+  rewrite !closed_set. intros [A B]. split; [apply index_of_app_ne; exact A|].
+  clear A. induction IH as [|y l Hy Hl IHl]; inversion B; subst; constructor; auto.
+Qed.
+Lemma reg_valid_nil : reg_valid [].
+Proof. intros [|? ?] x q E; discriminate. Qed.
+Lemma reg_valid_snoc reg x : reg_valid reg -> entry_ok reg x -> reg_valid (reg ++ [x]).
+Proof.
+  intros Hv He p y q E.
+  destruct q as [|z q].
+  - apply app_inj_tail in E as [-> ->]. exact He.
+  - assert (E' : exists q', reg = p ++ y :: q').
+    { exists (removelast (z :: q)). rewrite (app_removelast_last x (l := z :: q)) in E by discriminate.
+      change (reg ++ [x] = p ++ (y :: removelast (z :: q)) ++ [last (z :: q) x]) in E.
+      rewrite app_assoc in E. apply app_inj_tail in E as [E _]. rewrite E. reflexivity. }
+    destruct E' as [q' ->]. eapply Hv. reflexivity.
+Qed.
+Lemma register1_ext x reg : exists k, register1 x reg = reg ++ k.
+Proof. unfold register1. destruct (index_of x reg); [exists []; rewrite app_nil_r|eexists]; reflexivity. Qed.
+Lemma register1_valid x reg : reg_valid reg -> x <> SNo ->
+  match x with SSet l => Forall (closed reg) l | _ => True end ->
+  reg_valid (register1 x reg) /\ closed (register1 x reg) x.
+Proof.
+  intros Hv Hn Hm.
+  assert (Hc : forall r, (exists k, r = reg ++ k) -> index_of x r <> None -> closed r x).
+  { intros r [k ->] Hi. destruct x; simpl; auto. apply closed_set. split; auto.
+    eapply Forall_impl; [|exact Hm]. intros y. apply closed_app. }
+  unfold register1. destruct (index_of x reg) as [j|] eqn:E.
+  - split; auto. apply Hc; [exists []; rewrite app_nil_r; reflexivity|congruence].
+  - split; [apply reg_valid_snoc; auto; repeat split; auto|].
+    apply Hc; [eauto|]. rewrite (index_of_app_self _ _ E). discriminate.
+Qed.
+
+Definition reg_sources (l : list source) (reg : list source) : list source :=
+  fold_left (fun r y => register_source y r) l reg.
+Lemma register_source_set l reg : register_source (SSet l) reg = register1 (SSet l) (reg_sources l reg).
+Proof.
+  reflexivity.
+Qed.
+Lemma register_source_valid x : forall reg, reg_valid reg ->
+  reg_valid (register_source x reg) /\ closed (register_source x reg) x /\ exists k, register_source x reg = reg ++ k.
+Proof.
+  induction x as [|u t|u r|q|l IH] using source_ind'; intros reg Hv.
+  - simpl. split; [|split]; auto. exists []. rewrite app_nil_r. reflexivity.
+  - cbn [register_source]. destruct (register1_valid (SText u t) reg Hv ltac:(discriminate) I). auto using register1_ext.
+  - cbn [register_source]. destruct (register1_valid (SMem u r) reg Hv ltac:(discriminate) I). auto using register1_ext.
+  - cbn [register_source]. destruct (register1_valid (SFile q) reg Hv ltac:(discriminate) I). auto using register1_ext.
+  - rewrite register_source_set.
+    assert (G : reg_valid (reg_sources l reg) /\ Forall (closed (reg_sources l reg)) l /\ exists k, reg_sources l reg = reg ++ k).
+    { clear - IH Hv. revert reg Hv. induction IH as [|y l Hy Hl IHl]; intros reg Hv.
+      - simpl. split; [|split]; auto. exists []. rewrite app_nil_r. reflexivity.
+      - cbn [reg_sources fold_left]. destruct (Hy reg Hv) as [V1 [C1 [k1 E1]]].
+        destruct (IHl _ V1) as [V2 [C2 [k2 E2]]]. fold (reg_sources l (register_source y reg)) in *.
+        split; [|split]; auto.
+        + constructor; auto. rewrite E2. apply closed_app. exact C1.
+        + exists (k1 ++ k2). rewrite E2, E1, app_assoc. reflexivity. }
+    destruct G as [V [C [k E]]].
+    destruct (register1_valid (SSet l) _ V ltac:(discriminate) C) as [V' C'].
+    split; [|split]; auto. destruct (register1_ext (SSet l) (reg_sources l reg)) as [k' ->]. exists (k ++ k').
+    rewrite E, app_assoc. reflexivity.
+Qed.
+
+Definition reg_origins (l : list origin) (reg : list source) : list source :=
+  fold_left (fun r y => register_origin y r) l reg.
+Lemma register_origin_multi l reg : register_origin (OMulti l) reg =
+  let reg' := reg_origins l reg in
+  match multi_source (map osource l) with SSet _ as ss => register1 ss reg' | _ => reg' end.
+Proof.
+  cbn [register_origin].
+  assert (E : forall reg, (fix go (l : list origin) (reg : list source) {struct l} : list source :=
+                 match l with [] => reg | y :: r => go r (register_origin y reg) end) l reg = reg_origins l reg).
+  { induction l as [|y l IH]; intros r; [reflexivity|]. apply IH. }
+  rewrite E. reflexivity.
+Qed.
+Lemma register_origin_valid o : forall reg, reg_valid reg ->
+  reg_valid (register_origin o reg) /\ closed (register_origin o reg) (osource o) /\ exists k, register_origin o reg = reg ++ k.
+Proof.
+  induction o as [|sc r|sc|sc p|sc|l IH] using origin_ind'; intros reg Hv;
+    try (cbn [register_origin osource]; apply register_source_valid; exact Hv).
+  - simpl. split; [|split]; auto. exists []. rewrite app_nil_r. reflexivity.
+  - rewrite register_origin_multi. cbv zeta.
+    assert (G : reg_valid (reg_origins l reg) /\ Forall (closed (reg_origins l reg)) (map osource l) /\ exists k, reg_origins l reg = reg ++ k).
+    { clear - IH Hv. revert reg Hv. induction IH as [|y l Hy Hl IHl]; intros reg Hv.
+      - simpl. split; [|split]; auto. exists []. rewrite app_nil_r. reflexivity.
+      - cbn [reg_origins fold_left map]. destruct (Hy reg Hv) as [V1 [C1 [k1 E1]]].
+        destruct (IHl _ V1) as [V2 [C2 [k2 E2]]]. fold (reg_origins l (register_origin y reg)) in *.
+        split; [|split]; auto.
+        + constructor; auto. rewrite E2. apply closed_app. exact C1.
+        + exists (k1 ++ k2). rewrite E2, E1, app_assoc. reflexivity. }
+    destruct G as [V [C [k E]]]. cbn [osource].
+    assert (Hms : multi_source (map osource l) = SNo /\ map osource l = [] \/
+                  (exists s0 rest, map osource l = s0 :: rest /\ multi_source (map osource l) = s0) \/
+                  multi_source (map osource l) = SSet (map osource l)).
+    { unfold multi_source. destruct (map osource l) as [|s0 rest]; auto. destruct (all_same_source s0 rest); [right; left; eauto|right; right; reflexivity]. }
+    assert (Hcl : multi_source (map osource l) <> SNo ->
+                  match multi_source (map osource l) with SSet l0 => Forall (closed (reg_origins l reg)) l0 | _ => True end).
+    { intros Hn. destruct Hms as [[Hm _]|[[s0 [rest [El Hm]]]|Hm]]; [congruence| |rewrite Hm; exact C].
+      rewrite Hm. rewrite El in C. apply Forall_inv in C. destruct s0; auto. apply closed_set in C. tauto. }
+    destruct (multi_source (map osource l)) as [|u t|u r|q|l0] eqn:Em.
+    + split; [exact V|split; [exact I|eauto]].
+    + split; [exact V|split; [|eauto]]. destruct Hms as [[Hm _]|[[s0 [rest [El Hm]]]|Hm]]; try discriminate.
+      rewrite El in C. apply Forall_inv in C. rewrite Hm. exact C.
+    + split; [exact V|split; [|eauto]]. destruct Hms as [[Hm _]|[[s0 [rest [El Hm]]]|Hm]]; try discriminate.
+      rewrite El in C. apply Forall_inv in C. rewrite Hm. exact C.
+    + split; [exact V|split; [|eauto]]. destruct Hms as [[Hm _]|[[s0 [rest [El Hm]]]|Hm]]; try discriminate.
+      rewrite El in C. apply Forall_inv in C. rewrite Hm. exact C.
+    + destruct (register1_valid (SSet l0) _ V ltac:(discriminate) (Hcl ltac:(discriminate))) as [V' C'].
+      split; [|split]; auto. destruct (register1_ext (SSet l0) (reg_origins l reg)) as [k' ->]. exists (k ++ k').
+      rewrite E, app_assoc. reflexivity.
+Qed.
